@@ -323,6 +323,23 @@ CLAIMED["C02"] = {
     "design_ref": "DESIGN.md section 8, C02",
 }
 
+CLAIMED["C04"] = {
+    "text": "PARTIAL (the sequential core): C04_no_panic_without_stave_target (for EVERY packet list and every mode other than `check all its-stave` the "
+            "validator reaches no panic site: invariant `no readout-frame validator` through every word handler), C04_unreachable_hint_never_reached "
+            "(for ANY byte sequence the ALPIDE decoder never takes the unreachable_unchecked branch: no byte decodes to the padding extension), "
+            "C04_data_word_outside_frame_no_panic and C04_lane_without_chip_no_panic (type-check only while the source handles these cases: regenerated "
+            "facts; they were the defects F5 and F8, found by this check and repaired by fix: commits), C04_site_invalid_layer (the one remaining "
+            "stave-level site is reached exactly for FEE layer 7: recorded finding F6), C04_exit_range. Everything the model cannot exhibit -- "
+            "termination of the scanner on arbitrary bytes, the unsafe reads, threads, wall-clock time -- is decided by running the shipped-profile "
+            "binary on pure random bytes and structure-aware corruptions of conforming streams (12 corruption kinds, truncation) x all modes (five "
+            "check modes, three views, filtered writing) x options x file / pipe: the process must end on its own within the limit, without panic / "
+            "abort / signal, with exit status 0, 1 or the configured one; model and binary must agree on `hits a panic site`.",
+    "note": "Partial proof, stated as such. A panic is attributed to the recorded finding F6 only by its site (words/its.rs `Invalid layer number`); any "
+            "other crash, hang or exit status is a violation. Trusted: Coq kernel; gen translator; extraction + driver; binary; the generators.",
+    "technique": "Coq proof (panic-site invariants of the validator model, decoder totality, regenerated handling facts) + robustness sweep of the shipped-profile binary",
+    "design_ref": "DESIGN.md section 8, C04",
+}
+
 ALL = ["C%02d" % i for i in range(1, 21)]
 PENDING_REASON = "not claimed yet: the model/proof for this property is still under construction in this development (see DESIGN.md section 12 build order); no check is registered until its theorem file compiles without admits and its correspondence stream runs"
 
@@ -370,7 +387,7 @@ def main():
 
 
 HOOK_COMMITS = ["f32fed4"]
-FIX_COMMITS = ["2eb10e8", "024b878", "afd2aa3", "f731241", "add603d", "adf846c", "02e4e23", "df2db44"]
+FIX_COMMITS = ["2eb10e8", "024b878", "afd2aa3", "f731241", "add603d", "adf846c", "02e4e23", "df2db44", "fe06634", "1cace01"]
 NOT_APPLICABLE = {}
 
 if __name__ == "__main__":
